@@ -357,7 +357,96 @@ let coq_mode path =
 (* ---------- main loop ---------- *)
 type st = Dead | Tree of z bstate | Heap of z heap | Arena of z arena
 
+(* ---------- small-scope state-space exploration ----------
+   --explore CAP U MAXSTATES: breadth-first search over the model states reachable from new(CAP)
+   by insert / remove of the keys 0..U-1, two states being the same when their logical trees
+   (shape and key positions, ids and values ignored) are the same.  For EVERY transition
+   (state, operation) one flat history is printed: the shortest path to the state, the operation,
+   and a block of read-only probes; the full state is dumped only after the operation itself.
+   The histories are then run through the implementation and this driver like any others. *)
+let ident (h : z heap) : string =
+  let la = Array.of_list h.hleaves.store and ba = Array.of_list h.hbranches.store in
+  let b = Buffer.create 256 in
+  let ik k = string_of_int (int_of_z k.kz) in
+  let rec go depth r = if depth > 64 then () else match r with
+    | RLeaf i -> let i = int_of_n i in
+        if i < Array.length la then (Buffer.add_char b '('; List.iter (fun k -> Buffer.add_string b (ik k); Buffer.add_char b ' ') la.(i).lkeys; Buffer.add_char b ')')
+    | RBranch i -> let i = int_of_n i in
+        if i < Array.length ba then begin
+          Buffer.add_char b '[';
+          List.iter (fun k -> Buffer.add_string b (ik k); Buffer.add_char b ' ') ba.(i).bkeys;
+          List.iter (fun c -> go (depth + 1) c) ba.(i).bkids;
+          Buffer.add_char b ']'
+        end in
+  go 0 h.hroot; Buffer.contents b
+
+(* prefix: the insertion order that builds the start state ("-" = start from the empty map);
+   depth: 0 = explore the whole closure, d > 0 = only the states at most d operations away
+   from the start state *)
+let prefix_keys (spec : string) : int list =
+  match String.split_on_char ':' spec with
+  | ["asc"; n] -> List.init (ios n) (fun i -> i)
+  | ["desc"; n] -> let n = ios n in List.init n (fun i -> n - 1 - i)
+  | ["zig"; n] -> let n = ios n in List.init n (fun i -> if i mod 2 = 0 then i / 2 else n - 1 - i / 2)
+  | ["mid"; n] -> let n = ios n in List.init n (fun i -> if i mod 2 = 0 then n / 2 + i / 2 else n / 2 - 1 - i / 2)
+  | ["rnd"; seed; n] ->
+      let n = ios n in
+      let a = Array.init n (fun i -> i) in
+      let st = ref (ios seed * 7919 + 17) in
+      let next m = st := (!st * 1103515245 + 12345) land 0x3fffffff; (!st lsr 8) mod m in
+      for i = n - 1 downto 1 do let j = next (i + 1) in let t = a.(i) in a.(i) <- a.(j); a.(j) <- t done;
+      Array.to_list a
+  | _ -> []
+
+let explore cap u maxstates depth prefix =
+  match b_new (nat_of_int cap) with
+  | None -> prerr_endline "explore: capacity rejected"
+  | Some b0 ->
+    let (b0, path0, sid0) = List.fold_left (fun (b, p, sid) k ->
+        let (b', _) = step b (OInsert (key_of k sid, z_of_int (sid * 10))) in
+        (b', Printf.sprintf "I %d %d %d" k sid (sid * 10) :: p, sid + 1)) (b0, [], 1) (prefix_keys prefix) in
+    let plen0 = List.length path0 in
+    let seen = Hashtbl.create 65536 in
+    let q = Queue.create () in
+    Hashtbl.add seen (ident (flatten_fast b0)) ();
+    Queue.add (b0, path0, sid0) q;
+    let nh = ref 0 and nstates = ref 1 and truncated = ref false and maxh = ref 0 in
+    let probes = Printf.sprintf "V\nQ\nL\nFL\nIT items,fast,keys 0:%d 1:%d 2:%d\nRG I %d E %d\nRG E %d I %d\nIR %d %d\n"
+        (u + 2) (u + 2) (u + 2) (u / 3) (u - 1) (u / 4) (u / 2) (u / 2) u in
+    let tag = Printf.sprintf "x%d.%d.%s.%d" cap u (String.concat "" (String.split_on_char ':' prefix)) depth in
+    while not (Queue.is_empty q) do
+      let (b, path_rev, sid) = Queue.pop q in
+      let plen = List.length path_rev in
+      let path = String.concat "" (List.rev_map (fun l -> l ^ "\n") path_rev) in
+      for k = 0 to u - 1 do
+        List.iter (fun ins ->
+          let line = if ins then Printf.sprintf "I %d %d %d" k sid (sid * 10) else Printf.sprintf "R %d" k in
+          let op = if ins then OInsert (key_of k sid, z_of_int (sid * 10)) else ORemove (z_of_int k) in
+          let (b', out) = step b op in
+          pr "H %s.%d rust cap=%d dump=%d\n%s%s\nG %d\n%s" tag !nh cap (plen + 1) path line k probes;
+          incr nh;
+          (match out with
+           | UPanic | UFuel | UUB -> ()
+           | _ ->
+             let id = ident (flatten_fast b') in
+             if not (Hashtbl.mem seen id) then
+               if depth > 0 && plen + 1 - plen0 >= depth then truncated := true
+               else if !nstates < maxstates then begin
+                 Hashtbl.add seen id (); incr nstates;
+                 if plen + 1 > !maxh then maxh := plen + 1;
+                 Queue.add (b', line :: path_rev, sid + 1) q
+               end else truncated := true);
+          if Buffer.length buf > 60000 then flush_buf ()
+        ) [true; false]
+      done
+    done;
+    flush_buf ();
+    Printf.eprintf "EXPLORE cap=%d keys=%d states=%d transitions=%d longest_path=%d closed=%b\n"
+      cap u !nstates !nh !maxh (not !truncated)
+
 let () =
+  if Array.length Sys.argv > 4 && Sys.argv.(1) = "--explore" then (explore (ios Sys.argv.(2)) (ios Sys.argv.(3)) (ios Sys.argv.(4))
+      (if Array.length Sys.argv > 5 then ios Sys.argv.(5) else 0) (if Array.length Sys.argv > 6 then Sys.argv.(6) else "-"); exit 0);
   if Array.length Sys.argv > 2 && Sys.argv.(1) = "--coq" then (coq_mode Sys.argv.(2); exit 0);
   let ic = if Array.length Sys.argv > 1 then open_in Sys.argv.(1) else stdin in
   let state = ref Dead in
